@@ -176,6 +176,39 @@ def trim_shape(fname, fullname):
 trim_r = trim_shape("trim_right_edge", "full_width")
 trim_b = trim_shape("trim_bottom_edge", "full_height")
 
+# ---- per routine: which source dimension MCU_cols / MCU_rows are taken from, and the loop shape
+ROUT = ["do_crop", "do_flip_h_no_crop", "do_flip_h", "do_flip_v", "do_transpose", "do_rot_90", "do_rot_270", "do_rot_180", "do_transverse"]
+mcu_dims, loop_shape = [], []
+for rn in ROUT:
+    bd = re.sub(r"\s+", " ", func_body(transupp_c, rn))
+    mc = re.findall(r"MCU_cols = srcinfo->output_(width|height) / \( ?dstinfo->max_(h|v)_samp_factor \* dstinfo_min_DCT_(h|v)_scaled_size ?\)", bd)
+    mr = re.findall(r"MCU_rows = srcinfo->output_(width|height) / \( ?dstinfo->max_(h|v)_samp_factor \* dstinfo_min_DCT_(h|v)_scaled_size ?\)", bd)
+    if len(mc) > 1 or len(mr) > 1 or len(re.findall(r"MCU_cols =", bd)) != len(mc) or len(re.findall(r"MCU_rows =", bd)) != len(mr):
+        die("%s: MCU_cols / MCU_rows have an unknown shape" % rn)
+    if (mc and mc[0][1:] != ("h", "h")) or (mr and mr[0][1:] != ("v", "v")):
+        die("%s: MCU_cols must divide by the horizontal, MCU_rows by the vertical iMCU size" % rn)
+    if mc and not re.search(r"comp_width = MCU_cols \* compptr->h_samp_factor", bd):
+        die("%s: comp_width shape" % rn)
+    if mr and not re.search(r"comp_height = MCU_rows \* compptr->v_samp_factor", bd):
+        die("%s: comp_height shape" % rn)
+    mcu_dims.append((rn, mc[0][0] if mc else None, mr[0][0] if mr else None))
+    ystep = re.findall(r"for \( ?(?:dst_)?blk_y = 0; (?:dst_)?blk_y < (?:compptr->height_in_blocks|comp_height); (?:dst_)?blk_y \+= compptr->v_samp_factor ?\)", bd)
+    if len(ystep) != 1 or "offset_y < compptr->v_samp_factor" not in bd:
+        die("%s: outer block-row loop has an unknown shape" % rn)
+    bw = len(re.findall(r"dst_blk_x \+= compptr->h_samp_factor", bd))
+    rw = len(re.findall(r"dst_blk_x\+\+", bd))
+    if rn in ("do_crop",):
+        bw, rw = 0, 1          # whole rows by jcopy_block_row(..., compptr->width_in_blocks)
+        if "jcopy_block_row" not in bd or "compptr->width_in_blocks" not in bd:
+            die("do_crop: row copy shape")
+    if rn == "do_flip_h_no_crop":
+        bw, rw = 0, 1
+    if (bw > 0) == (rw > 0):
+        die("%s: cannot tell row-wise from block-wise column loop" % rn)
+    if bw and "offset_x < compptr->h_samp_factor" not in bd:
+        die("%s: block-wise loop without offset_x loop" % rn)
+    loop_shape.append((rn, bw > 0))
+
 # ---- adjust_parameters: who calls transpose_critical_parameters
 ac = switch_cases(func_body(transupp_c, "jtransform_adjust_parameters"))
 crit = [(xn, "transpose_critical_parameters" in ac.get(jxn, ac.get("default", ""))) for jxn, xn in XOP.items()]
@@ -217,8 +250,12 @@ if not swaps or not re.search(r"TJXOP_TRANSPOSE.*TJXOP_TRANSVERSE.*TJXOP_ROT90.*
 dstmap = {a: b for a, b in swaps}
 # crop alignment test of tj3Transform
 t3 = func_body(tj_c, "tj3Transform")
-if not re.search(r"r\.x\s*%\s*tjMCUWidth\s*\[\s*dstSubsamp\s*\]\s*\)\s*!=\s*0\s*\|\|\s*\(\s*t\[i\]\.r\.y\s*%\s*tjMCUHeight\s*\[\s*dstSubsamp\s*\]", t3):
-    die("tj3Transform: crop alignment test on tjMCUWidth/tjMCUHeight[dstSubsamp] not found")
+if not re.search(r"t\[i\]\.r\.x\s*%\s*xinfo\[i\]\.iMCU_sample_width\s*\)\s*!=\s*0\s*\|\|\s*\(\s*t\[i\]\.r\.y\s*%\s*xinfo\[i\]\.iMCU_sample_height\s*\)\s*!=\s*0", t3):
+    die("tj3Transform: crop alignment test on xinfo[i].iMCU_sample_width/height not found")
+if not re.search(r"dstSubsamp\s*==\s*TJSAMP_UNKNOWN\s*\)\s*THROW", t3):
+    die("tj3Transform: unknown-destination-subsampling test not found")
+if t3.find("jtransform_request_workspace") > t3.find("iMCU_sample_width") or t3.find("jtransform_request_workspace") < 0:
+    die("tj3Transform: alignment test must follow jtransform_request_workspace")
 if not re.search(r"n\s*!=\s*1\s*&&\s*t\[i\]\.op\s*==\s*TJXOP_HFLIP\s*\)\s*xinfo\[i\]\.slow_hflip\s*=\s*1", t3):
     die("tj3Transform: slow_hflip rule not found")
 
@@ -252,6 +289,10 @@ out.append("Definition gen_swap_dims : list (xop * bool) := [%s]." % "; ".join("
 out.append("Definition gen_transpose_critical : list (xop * bool) := [%s]." % "; ".join("(%s, %s)" % (x, b(v)) for x, v in crit))
 out.append("Definition gen_exec : list (xop * list string) := [%s]." % "; ".join(
     "(%s, [%s])" % (x, "; ".join('"%s"%%string' % r for r in rs)) for x, rs in execs))
+out.append("(* routine, source dimension of MCU_cols, of MCU_rows; routine, column loop steps by h_samp_factor *)")
+out.append("Definition gen_mcu_dims : list (string * option srcdim * option srcdim) := [%s]." % "; ".join(
+    '("%s"%%string, %s, %s)' % (r, dim(a), dim(bb)) for r, a, bb in mcu_dims))
+out.append("Definition gen_blockwise : list (string * bool) := [%s]." % "; ".join('("%s"%%string, %s)' % (r, b(v)) for r, v in loop_shape))
 out.append("(* TJSAMP order: luminance factors, (tjMCUWidth, tjMCUHeight), luminance factors of getDstSubsamp under transposition *)")
 rows = []
 for i, sname in enumerate(samp):
